@@ -277,6 +277,7 @@ type c04Trace struct {
 	stop   *c04Ev // the stop instruction as it would execute next (select: channel terms)
 	blocks []*ssa.BasicBlock
 	phis   map[string]*c04T // exit "stop": the loop-carried SSA values (phis of the stop block) as they are at the stop
+	pre    map[string]*c04T // exit "stop": what the values of the chain functions evaluate to at the stop, by the name a path started at the stop gives them ("pre:fn.name")
 	x      *c04Exec
 }
 
@@ -1175,11 +1176,16 @@ func (x *c04Exec) run() []*c04Trace {
 }
 
 func (x *c04Exec) finish(st *c04State, exit string, ret []*c04T, stop *c04Ev) {
-	tr := &c04Trace{evs: st.evs, dec: st.dec, mem: st.mem, exit: exit, ret: ret, stop: stop, blocks: st.blocks, x: x, phis: map[string]*c04T{}}
+	tr := &c04Trace{evs: st.evs, dec: st.dec, mem: st.mem, exit: exit, ret: ret, stop: stop, blocks: st.blocks, x: x, phis: map[string]*c04T{}, pre: map[string]*c04T{}}
 	if exit == "stop" {
 		for fi, fr := range st.frames {
 			if fi > len(x.cfg.chain) {
 				break
+			}
+			for v, t := range fr.env {
+				if _, isInstr := v.(ssa.Instruction); isInstr && v.Parent() != nil {
+					tr.pre["pre:"+v.Parent().Name()+"."+v.Name()] = t
+				}
 			}
 			for _, b := range fr.fn.Blocks {
 				for _, in := range b.Instrs {
@@ -1555,6 +1561,12 @@ func (x *c04Exec) call(st *c04State, fr *c04Frame, a *ssa.Call) bool {
 		if n := a.Call.Signature().Results().Len(); n == 0 {
 			ev.res = c04Nil
 		}
+		if x.preObject(fr, a) {
+			// the state object a constructor hands to the code before the event loop: the paths that start inside
+			// the loop know it as "the value of this call as it was before the path started"; the same name here
+			// makes a location inside it one and the same cell in both families of paths
+			ev.res = x.static(st, fr, a)
+		}
 		fr.env[a] = ev.res
 		st.evs = append(st.evs, ev)
 		return false
@@ -1579,6 +1591,21 @@ func (x *c04Exec) call(st *c04State, fr *c04Frame, a *ssa.Call) bool {
 	fr.env[a] = ev.res
 	st.evs = append(st.evs, ev)
 	return false
+}
+
+// preObject: the evaluator runs from the entry of the root to the stop instruction (the start-up code of an event
+// loop), and the call a, made by a function of the chain leading to the stop instruction, returns a pointer to a
+// struct — the object the loop's state lives in.
+func (x *c04Exec) preObject(fr *c04Frame, a *ssa.Call) bool {
+	if x.cfg.stop == nil || x.cfg.startB != nil || fr.id < 0 || fr.id > len(x.cfg.chain) {
+		return false
+	}
+	pt, ok := a.Type().Underlying().(*types.Pointer)
+	if !ok {
+		return false
+	}
+	_, isStruct := pt.Elem().Underlying().(*types.Struct)
+	return isStruct
 }
 
 // ---------------------------------------------------------------------------------------------
